@@ -25,7 +25,7 @@ type Case struct {
 
 func setup() {
 	c := ev.C()
-	c.Rule = "histories that create, retarget (replace to another group / next-hop set / network instance), delete and flush references (rapid, model-aimed, groups may list an index twice) followed by a generated epilogue that attempts DELETE of every group and next-hop top-down, removes the top-level entries, then deletes bottom-up; plus every history of length<=3 (quick) / <=4 (thorough) over a 22-step retarget-heavy alphabet with the same epilogue. Oracle after every operation: each reference counter (hook) == number of installed referrers derived from the model, and every DELETE verdict == 'FAILED exactly when referenced'. Non-trivial = history with a retarget or flush AND >=1 DELETE that must fail AND >=1 DELETE of an installed group/next-hop that must succeed; distinct by FNV-64 of the case JSON."
+	c.Rule = "histories that create, retarget (replace to another group / next-hop set / network instance), delete and flush references (rapid, model-aimed, groups may list an index twice) followed by a generated epilogue that attempts DELETE of every group and next-hop top-down, removes the top-level entries, then deletes bottom-up; plus every history of length<=3 (quick) / <=4 (thorough) over a 22-step retarget-heavy alphabet with the same epilogue. Oracle after every operation: each reference counter (hook) == number of installed referrers derived from the model, and every DELETE verdict == 'FAILED exactly when referenced'. Non-trivial = history with a retarget or flush AND >=1 DELETE that must fail AND >=1 DELETE of an installed group/next-hop that must succeed; distinct by FNV-64 of the case JSON. Later additions: renaming onto ids spanning the uint64 range; alias spellings of one prefix (host bits, hex case) in the key universe; clock steps."
 	c.Assumptions = []string{"payloads are schema-valid; ids unique per history", "a group that lists the same next-hop index twice references it once"}
 }
 
